@@ -76,6 +76,22 @@ fn check_insert(cfg: &'static dyn Config, lines: &[Line], pos: usize, extra: &Li
         Ok(k) => k,
         Err(why) => return Verdict::Excluded(why),
     };
+    if kind == "rejected" && extra.decode {
+        // an error on a fragment with decoding requested may come from the *payload* of a group it
+        // completed - that is not one of the kinds of rejection the statement names. The line
+        // qualifies only if it is rejected with decoding off as well.
+        if let Gate::Pass(f) = gate(&extra.bytes) {
+            if !(f.num_fragments == 1 && f.fragment_number == 1) {
+                let plain = Line::new(extra.bytes.clone(), false);
+                let mut pre: Vec<&Line> = lines[..pos].iter().collect();
+                pre.push(&plain);
+                let o = run_all(cfg, &pre);
+                if o.last().map(|x| x.is_ok()).unwrap_or(false) {
+                    return Verdict::Excluded("the extra line is accepted by the sequencing rules; its error comes from decoding the completed group");
+                }
+            }
+        }
+    }
     rec.class(if kind == "rejected" { "extra-line-rejected" } else { "extra-line-unfragmented" });
     // was a group open when the extra line arrived? (judged on the implementation's own results:
     // the last accepted line before `pos` that was Incomplete)
